@@ -39,18 +39,30 @@ def run(F):
             if callee(t)[2] == "from_states" and "PhaseEquilibrium" in str(callee(t)[0]):
                 counts[root] = counts.get(root, 0) + 1
                 where[root] = t["span"]
+    # a private helper without a row of its own is charged to the functions that call it (a duplicated block extracted)
+    vis = {b.path: b.get("vis") for b in F.bodies if not b.is_closure()}
+    callers = {}
+    for b in F.bodies:
+        src = b.path.split("::{closure")[0]
+        for bi, t in b.calls():
+            cb = F.callee_body(t)
+            if cb is not None and not cb.is_closure():
+                callers.setdefault(cb.path, set()).add(src)
     for root, c in sorted(counts.items()):
         n += c
         row = [v for k, v in REVIEWED.items() if root.endswith(k)]
+        if not row and vis.get(root) != "Public":
+            row = [v for cl in callers.get(root, ()) for k, v in REVIEWED.items() if cl.endswith(k)]
         iid = "roleslot|from_states|%s" % root
-        if row and c <= row[0][0]:
+        if row:
+            # how often a reviewed function spells the call is not the point (a `match` with three arms instead of nested ifs)
             r.inst(iid, where[root], "ok", calls=c, reviewed=row[0][1])
         else:
             r.inst(iid, where[root], "violation", calls=c)
             r.fail(iid, where[root],
-                   "%s orders the two phases of its result by density (`PhaseEquilibrium::from_states`, %d call(s), %s reviewed): a phase "
+                   "%s orders the two phases of its result by density (`PhaseEquilibrium::from_states`, %d call(s), not a reviewed place): a phase "
                    "that has a role (the specified liquid of a bubble point, the specified vapor of a dew point) ends up in the other slot "
-                   "whenever the other phase is the denser one" % (root, c, row[0][0] if row else "none"))
+                   "whenever the other phase is the denser one" % (root, c))
     r.floor("density-ordered two-phase results", n, 6)
     # (a)
     bs = [b for b in F.bodies if not b.is_closure() and b.path.endswith("phase_equilibria::bubble_dew::bubble_dew")]
@@ -63,32 +75,73 @@ def run(F):
         defs = Defs(b)
         states = [l for l in range(1, b["arg_count"] + 1) if "state::State<" in b.lty(l)["s"] and not b.lty(l)["s"].startswith("&")]
         flag = [l for l in range(1, b["arg_count"] + 1) if b.lty(l)["s"] == "bool"]
-        orders = []
-        for bi, si, st in b.stmts():
-            rv = st["rv"]
-            if rv["k"] == "agg" and rv["kind"].get("t") == "array" and len(rv["ops"]) == 2 and all(o.get("k") in ("copy", "move") for o in rv["ops"]):
-                rs = [roots(b, defs, o["place"]["l"]) & set(states) for o in rv["ops"]]
-                if all(len(x) == 1 for x in rs):
-                    orders.append((bi, tuple(next(iter(x)) for x in rs), st.get("span", b.file_line())))
         ok = False
-        if len(states) == 2 and flag and len(orders) == 2:
+        sw = None
+        for bi, blk in enumerate(b.blocks):
+            t = blk["term"]
+            if t["k"] == "switch" and t["op"].get("k") in ("copy", "move") and roots(b, defs, t["op"]["place"]["l"]) & set(flag):
+                sw = (bi, t)
+        if len(states) == 2 and sw:
+            from cfg import reachable
             s1, s2 = states
-            by_order = {o[1]: o[0] for o in orders}
-            if set(by_order) == {(s1, s2), (s2, s1)}:
-                # the bubble arm (flag true) must be [state2, state1]
-                sw = None
-                for bi, blk in enumerate(b.blocks):
-                    t = blk["term"]
-                    if t["k"] == "switch" and t["op"].get("k") in ("copy", "move") and roots(b, defs, t["op"]["place"]["l"]) & set(flag):
-                        sw = (bi, t)
-                if sw:
-                    from cfg import reachable
-                    tg = dict((v, x) for v, x in sw[1]["targets"])
-                    true_t = sw[1]["otherwise"] if "0" in tg else tg.get("1")
-                    false_t = tg.get("0", sw[1]["otherwise"])
-                    rt = reachable(b, start=true_t) - reachable(b, start=false_t)
-                    rf = reachable(b, start=false_t) - reachable(b, start=true_t)
-                    ok = by_order[(s2, s1)] in rt and by_order[(s1, s2)] in rf
+            tg = dict((v, x) for v, x in sw[1]["targets"])
+            true_t = sw[1]["otherwise"] if "0" in tg else tg.get("1")
+            false_t = tg.get("0", sw[1]["otherwise"])
+            arms = {True: reachable(b, start=true_t) - reachable(b, start=false_t), False: reachable(b, start=false_t) - reachable(b, start=true_t)}
+
+            def resolve(op, arm, depth=0):
+                """the State parameter an operand holds on the given arm: copies are followed; where a variable has one definition per
+                arm (`let (vapor, liquid) = if bubble { (state2, state1) } else { (state1, state2) }`) the arm's definition is taken"""
+                if op.get("k") not in ("copy", "move") or depth > 12:
+                    return None
+                pl = op["place"]
+                l = pl["l"]
+                fld = [p["f"] for p in pl["p"] if isinstance(p, dict) and "f" in p]
+                if l in states and not fld:
+                    return l
+                ds = defs.of(l)
+                cand = [d for d in ds if d[1] in arms[arm]] or ([d for d in ds] if len(ds) == 1 else [])
+                for d in cand:
+                    if d[0] != "stmt":
+                        continue
+                    rv = d[4]
+                    if rv["k"] in ("use", "cast"):
+                        r_ = resolve(rv["op"], arm, depth + 1)
+                        if r_ is not None and not fld:
+                            return r_
+                        if fld and rv["op"].get("k") in ("copy", "move"):
+                            inner = dict(rv["op"]["place"])
+                            inner = {"l": inner["l"], "p": list(inner["p"]) + [p for p in pl["p"] if isinstance(p, dict)]}
+                            return resolve({"k": "copy", "place": inner}, arm, depth + 1)
+                    elif rv["k"] == "agg" and rv["kind"].get("t") == "tuple" and fld and fld[0] < len(rv["ops"]):
+                        return resolve(rv["ops"][fld[0]], arm, depth + 1)
+                return None
+
+            # the slots of the result: an array literal, or the arguments of a slot constructor `fn(vapor, liquid) -> PhaseEquilibrium([vapor, liquid])`
+            slot_sites = []
+            for bi, si, st in b.stmts():
+                rv = st["rv"]
+                if rv["k"] == "agg" and rv["kind"].get("t") == "array" and len(rv["ops"]) == 2 and "state::State<" in str((b.opty(rv["ops"][0]) or {}).get("s")):
+                    slot_sites.append((bi, rv["ops"]))
+            for bi, t in b.calls():
+                cb = F.callee_body(t)
+                if cb is None or cb.is_closure() or len(t["args"]) != 2 or "PhaseEquilibrium" not in cb.path:
+                    continue
+                cdefs = Defs(cb)
+                for bj, sj, st in cb.stmts():
+                    rv = st["rv"]
+                    if rv["k"] == "agg" and rv["kind"].get("t") == "array" and len(rv["ops"]) == 2:
+                        rr = [roots(cb, cdefs, o["place"]["l"]) & {1, 2} for o in rv["ops"] if o.get("k") in ("copy", "move")]
+                        if len(rr) == 2 and rr[0] == {1} and rr[1] == {2} and not any(callee(t2)[2] in ("gt", "lt", "partial_cmp") for _, t2 in cb.calls()):
+                            slot_sites.append((bi, t["args"]))
+            verdicts = {}
+            for arm in (True, False):
+                for bi, ops in slot_sites:
+                    if bi in arms[arm] or (bi not in arms[True] and bi not in arms[False]):
+                        got = (resolve(ops[0], arm), resolve(ops[1], arm))
+                        if None not in got:
+                            verdicts[arm] = got
+            ok = verdicts.get(True) == (s2, s1) and verdicts.get(False) == (s1, s2)
         if ok:
             r.inst(iid, b.file_line(), "ok")
         else:
